@@ -8,13 +8,13 @@ import (
 	"flag"
 	"fmt"
 	"os"
+	"runtime/pprof"
 	"sort"
 	"strconv"
 	"strings"
 	"time"
 
 	storetypes "cosmossdk.io/store/types"
-	sdk "github.com/cosmos/cosmos-sdk/types"
 
 	core "github.com/osmosis-labs/osmosis/x/epochs/zzverif/res"
 )
@@ -41,29 +41,38 @@ func lmaxFor(tier string) []int {
 	return []int{6, 6, 4}
 }
 
+var fastDump = flag.Bool("fastdump", false, "diagnostics: read the subscriber store by point lookups in blocks with deviations")
+var dry = flag.Bool("dry", false, "diagnostics: count the executions a bound would need without running anything (result is not a check)")
+var cpuProf = flag.String("cpuprofile", "", "write a CPU profile (diagnostics only)")
+
 const shardLevel = 3 // work items are (node at depth shardLevel-1, next delta)
 
+// node is a state of the exploration DAG reached by an all-ok block or by a dropped (out-of-gas) block.
 type node struct {
-	ctx    sdk.Context
+	st     State
 	m      Model
 	depth  int
 	deltas []int
-	devs   []Dev
+	devs   []Dev   // deviations inside dropped blocks on the path (the only ones the state depends on)
+	used   int     // = len(devs)
+	poly   []int64 // poly[k] = number of ways to place k contained failures in the committed blocks of the path
 }
 
 type Explorer struct {
-	f       *core.Flags
-	r       *core.Result
-	w       *World
-	cfg     int
-	lmax    []int
-	item    int
-	expired bool
-	execs   int64
-	byDevs  [8]int64
-	maxPts  int64
-	best    map[string]core.Violation // per assertion: the simplest failing schedule seen by this shard
-	replay  bool
+	f        *core.Flags
+	r        *core.Result
+	w        *World
+	cfg      int
+	lmax     []int
+	item     int
+	expired  bool
+	execs    int64
+	byDevs   [8]int64
+	maxPts   int64
+	best     map[string]core.Violation // per assertion: the simplest failing schedule seen by this shard
+	replay   bool
+	nodes    int64
+	fullDump bool
 }
 
 type replayCase struct {
@@ -124,87 +133,162 @@ func (e *Explorer) report(deltaIdx []int, devs []Dev, fails []Failure) {
 	}
 }
 
-// step drives one block (delta di, deviations blockDevs in it) from n, checks it, descends, and then
-// enumerates every further deviation placement inside the same block.
-func (e *Explorer) step(n *node, di int, blockDevs []Dev, owned bool) {
-	if e.expired {
-		return
+// allowed: may a block at position `block` carry a history's k-th deviation?
+func (e *Explorer) allowed(block, k int) bool {
+	return k < len(e.lmax) && block <= e.lmax[k]
+}
+
+// represented = number of complete histories (delta sequence + deviation placement, within the bounds) that
+// end with this very execution: the s deviations of this block, the n.used ones in dropped blocks of the
+// path, and any k' contained failures in the committed blocks of the path (each of those blocks was driven
+// with each such failure set, was checked, and was verified to leave the byte-identical state).
+func (e *Explorer) represented(n *node, block, s int) {
+	for k1, ways := range n.poly {
+		k := n.used + k1 + s
+		if ways > 0 && e.allowed(block, k) {
+			e.byDevs[k] += ways
+			e.r.Traces += ways
+		}
 	}
-	e.execs++
-	if e.execs&0xfff == 0 && e.f.Expired() {
-		e.expired = true
+}
+
+// step drives block (n, di) with every deviation set the bounds allow: first all-ok, then recursively every
+// placement at the subscriber calls reached after the last deviation already placed in the block.
+func (e *Explorer) step(n *node, di int, owned bool) {
+	if e.expired {
 		return
 	}
 	block := n.depth + 1
 	tOff := n.m.Now + deltas[di]
-	res := e.w.RunBlock(n.ctx, block, tOff, blockDevs)
-	ex := expect(n.m, e.w.Timers, block, tOff, blockDevs)
-	fails := Check(e.w, n.m, &ex, tOff, &res)
-
-	nd := len(n.devs) + len(blockDevs)
 	childDeltas := append(append(make([]int, 0, block), n.deltas...), di)
-	childDevs := append(append(make([]Dev, 0, nd), n.devs...), blockDevs...)
+
+	res, ex, fails := e.drive(n, block, tOff, nil)
 	if owned {
-		e.count(n, &ex, &res, childDeltas, childDevs, nd)
+		e.count(n, &ex, &res, childDeltas, n.devs, block, 0)
 	}
 	if len(fails) > 0 {
-		e.report(childDeltas, childDevs, fails)
-	} else {
-		child := &node{ctx: res.Ctx, m: ex.Next, depth: block, deltas: childDeltas, devs: childDevs}
-		e.expand(child)
+		e.report(childDeltas, n.devs, fails)
+		return
 	}
+	var s0 State
+	if !*dry {
+		s0 = e.w.Snapshot(res.Ctx)
+	}
+	e.variants(n, di, block, tOff, childDeltas, nil, res.Log, s0, owned)
 
-	// further deviations in this block: every point reached after the last deviation already placed here
-	if nd+1 >= len(e.lmax) || block > e.lmax[nd+1] {
+	// descend along the all-ok block
+	p := len(res.Log)
+	child := &node{st: s0, m: ex.Next, depth: block, deltas: childDeltas, devs: n.devs, used: n.used, poly: make([]int64, len(n.poly))}
+	// poly * sum_j C(p,j) 4^j x^j
+	for j, c := 0, int64(1); j <= p && j < len(child.poly); j++ {
+		for k := 0; k+j < len(child.poly); k++ {
+			child.poly[k+j] += n.poly[k] * c
+		}
+		c = c * int64(p-j) / int64(j+1) * 4
+	}
+	e.expand(child, owned)
+}
+
+func (e *Explorer) drive(n *node, block int, tOff int64, blockDevs []Dev) (BlockResult, Expect, []Failure) {
+	e.execs++
+	if e.execs&0x3ff == 0 && e.f.Expired() {
+		e.expired = true
+	}
+	ex := expect(n.m, e.w.Timers, block, tOff, blockDevs)
+	if *dry {
+		// sizing aid only: no real code is run, the reference stands in for it; nothing is checked
+		res := BlockResult{Panicked: ex.Abort}
+		for i := 0; i < ex.NInv; i++ {
+			v := ex.Invs[i]
+			res.Log = append(res.Log, Inv{Timer: v.Timer, Kind: v.Kind, Sub: v.Sub, Epoch: v.Epoch, Out: v.Out})
+		}
+		if ex.Abort {
+			res.PanicVal = storetypes.ErrorOutOfGas{}
+		}
+		return res, ex, nil
+	}
+	res := e.w.RunBlock(n.st, block, tOff, blockDevs)
+	return res, ex, Check(e.w, n.m, &ex, tOff, &res, e.fullDump || len(blockDevs) == 0)
+}
+
+func (e *Explorer) variants(n *node, di, block int, tOff int64, childDeltas []int, blockDevs []Dev, log []Inv, s0 State, owned bool) {
+	if !e.allowed(block, n.used+len(blockDevs)+1) {
 		return
 	}
 	start := 0
 	if len(blockDevs) > 0 {
 		last := blockDevs[len(blockDevs)-1]
-		start = len(res.Log)
-		for i, g := range res.Log {
+		start = len(log)
+		for i, g := range log {
 			if g.Timer == last.Timer && g.Kind == last.Kind && g.Sub == last.Sub {
 				start = i + 1
 				break
 			}
 		}
 	}
-	for p := start; p < len(res.Log); p++ {
-		g := res.Log[p]
+	for p := start; p < len(log); p++ {
+		g := log[p]
 		if g.Timer < 0 {
 			continue
 		}
 		for o := 1; o < nOutcomes; o++ {
+			if e.expired {
+				return
+			}
 			bd := append(append(make([]Dev, 0, len(blockDevs)+1), blockDevs...), Dev{Block: block, Timer: g.Timer, Kind: g.Kind, Sub: g.Sub, Out: o})
-			e.step(n, di, bd, owned)
+			allDevs := append(append(make([]Dev, 0, n.used+len(bd)), n.devs...), bd...)
+			res, ex, fails := e.drive(n, block, tOff, bd)
+			if owned {
+				e.count(n, &ex, &res, childDeltas, allDevs, block, len(bd))
+			}
+			if len(fails) == 0 && !res.Panicked && !*dry {
+				// the epochs store must be exactly what the same block leaves without the failure
+				if s := e.w.Snapshot(res.Ctx); s != s0 {
+					fails = append(fails, Failure{"saved", fmt.Sprintf("epochs store after the block with contained subscriber failures differs from the store after the same block without them: %q vs %q", s, s0)})
+				}
+			}
+			if len(fails) > 0 {
+				e.report(childDeltas, allDevs, fails)
+				continue
+			}
+			if res.Panicked {
+				// dropped block: the state is unchanged, time and height moved on
+				child := &node{st: n.st, m: ex.Next, depth: block, deltas: childDeltas, devs: allDevs, used: len(allDevs), poly: n.poly}
+				e.expand(child, owned)
+				continue
+			}
+			e.variants(n, di, block, tOff, childDeltas, bd, res.Log, s0, owned)
 		}
 	}
 }
 
-func (e *Explorer) expand(n *node) {
-	if n.depth >= e.lmax[len(n.devs)] {
+func (e *Explorer) expand(n *node, owned bool) {
+	if owned {
+		e.nodes++
+	}
+	if n.depth >= e.lmax[n.used] {
 		return
 	}
 	for di := range deltas {
-		owned := true
+		o := owned
 		if n.depth+1 < shardLevel {
-			owned = e.f.Mine(0) // shallow nodes are driven by every shard, counted by one
+			o = e.f.Mine(0) // shallow blocks are driven by every shard, counted by one
 		} else if n.depth+1 == shardLevel {
 			e.item++
 			if !e.f.Mine(e.item) {
 				continue
 			}
+			o = true
 		}
-		e.step(n, di, nil, owned)
+		e.step(n, di, o)
 	}
 }
 
-func (e *Explorer) count(n *node, ex *Expect, res *BlockResult, deltaIdx []int, devs []Dev, nd int) {
+func (e *Explorer) count(n *node, ex *Expect, res *BlockResult, deltaIdx []int, devs []Dev, block, inBlock int) {
 	r := e.r
 	r.Transitions++
-	r.Traces++
-	r.States++
-	e.byDevs[nd]++
+	e.represented(n, block, inBlock)
+	nd := len(devs)
 	v := r.Vacuity
 	if ex.BeforeStart {
 		v["block_before_start_time"]++
@@ -284,24 +368,21 @@ func (e *Explorer) run(cfg int) {
 	e.cfg = cfg
 	e.w = NewWorld(configs[cfg])
 	m := Model{}
-	for i := range e.w.Timers {
-		m.T[i].Height = 0
-	}
 	// the imported timers must be what the reference starts from
-	ex := Expect{Next: m}
-	res := BlockResult{Ctx: e.w.Root}
-	if fails := checkGenesis(e.w, &ex, &res); len(fails) > 0 {
+	if fails := checkGenesis(e.w); len(fails) > 0 {
 		e.report(nil, nil, fails)
 		return
 	}
-	root := &node{ctx: e.w.Root, m: m}
-	e.expand(root)
+	poly := make([]int64, len(e.lmax))
+	poly[0] = 1
+	root := &node{st: e.w.Genesis, m: m, poly: poly}
+	e.expand(root, e.f.Mine(0))
 }
 
 // checkGenesis: after InitGenesis no timer has started and each is stored as configured.
-func checkGenesis(w *World, ex *Expect, res *BlockResult) []Failure {
+func checkGenesis(w *World) []Failure {
 	var fails []Failure
-	all := w.K.AllEpochInfos(res.Ctx)
+	all := w.K.AllEpochInfos(w.Root)
 	if len(all) != len(w.Timers) {
 		return []Failure{{"saved", fmt.Sprintf("genesis: %d epoch infos stored, %d configured", len(all), len(w.Timers))}}
 	}
@@ -326,11 +407,16 @@ func main() {
 		return
 	}
 	lmax := lmaxFor(f.Tier)
-	e := &Explorer{f: f, r: r, lmax: lmax, best: map[string]core.Violation{}}
+	if *cpuProf != "" {
+		pf, _ := os.Create(*cpuProf)
+		_ = pprof.StartCPUProfile(pf)
+		defer pprof.StopCPUProfile()
+	}
+	e := &Explorer{f: f, r: r, lmax: lmax, best: map[string]core.Violation{}, fullDump: !*fastDump}
 	for cfg := range configs {
 		e.run(cfg)
 	}
-	if e.expired {
+	if e.expired || *dry {
 		r.Exhaustive = false
 		r.DepthCompleted = 0
 	} else {
@@ -344,11 +430,12 @@ func main() {
 	for _, a := range as {
 		r.AddViolation(e.best[a])
 	}
+	r.States = e.nodes
 	for k := 0; k < len(lmax); k++ {
 		r.Extra[fmt.Sprintf("sum_histories_with_%d_deviations", k)] = e.byDevs[k]
 	}
 	r.Extra["max_subscriber_calls_in_one_block"] = e.maxPts
-	r.Extra["sum_blocks_driven_including_shared_prefixes"] = e.execs
+	r.Extra["sum_blocks_driven_including_shared_shallow_levels"] = e.execs
 	r.Extra["max_sequence_length_by_number_of_deviations"] = fmt.Sprint(lmax)
 	r.Extra["delta_alphabet"] = strings.Join(deltaNames, ",")
 	r.Extra["timer_configurations"] = strings.Join(configNames, " | ")
@@ -400,7 +487,7 @@ func doReplay(f *core.Flags, r *core.Result) {
 		}
 		devs = append(devs, Dev{Block: d.Block, Timer: ti, Kind: index(kindNames, d.Signal), Sub: d.Sub - 1, Out: index(outcomeNames, d.Outcome)})
 	}
-	ctx := e.w.Root
+	st := e.w.Genesis
 	m := Model{}
 	var didx []int
 	var used []Dev
@@ -416,9 +503,9 @@ func doReplay(f *core.Flags, r *core.Result) {
 		}
 		used = append(used, plan...)
 		tOff := m.Now + deltas[di]
-		res := e.w.RunBlock(ctx, block, tOff, plan)
+		res := e.w.RunBlock(st, block, tOff, plan)
 		ex := expect(m, e.w.Timers, block, tOff, plan)
-		fails := Check(e.w, m, &ex, tOff, &res)
+		fails := Check(e.w, m, &ex, tOff, &res, true)
 		r.Transitions++
 		var sigs []string
 		for _, g := range res.Log {
@@ -436,8 +523,14 @@ func doReplay(f *core.Flags, r *core.Result) {
 			e.report(didx, used, fails)
 			break
 		}
-		ctx, m = res.Ctx, ex.Next
+		if !res.Panicked {
+			st = e.w.Snapshot(res.Ctx)
+		}
+		m = ex.Next
 	}
 	r.States, r.Traces = r.Transitions, 1
+	if fails := checkGenesis(e.w); len(fails) > 0 {
+		e.report(nil, nil, fails)
+	}
 	finish(f, r)
 }
